@@ -404,6 +404,14 @@ func genGraph(r rng, seed uint64, id, family string, k Knobs) *sdl.Program {
 			}
 		}
 	}
+	// ordinary components that also carry a factory hook or a definition-registry hook
+	for _, t := range p.Types {
+		if r.p(0.06) {
+			t.FactoryPP = true
+		} else if r.p(0.04) {
+			t.DefRegPP = true
+		}
+	}
 	// ... or field-less (zero-size) providers, which may share one address
 	if r.p(k.PZero) {
 		nz := r.n(2, 3)
